@@ -259,7 +259,7 @@ func (c *compiled) body(n *Node, ctx *common.Address, level int, chainID *big.In
 			a.Op(opPUSH1, 32, opPUSH1, 0, byte(opLOG0+int(it.A)))
 		case "xfer":
 			push0(a, 4)
-			a.Push(it.B).PushBytes(eoaAddr(int(it.A % nEOA)).Bytes()).Op(opPUSH1, 0, opCALL, opPOP)
+			a.Push(it.B).PushBytes(eoaAddr(int(it.A%nEOA)).Bytes()).Op(opPUSH1, 0, opCALL, opPOP)
 		case "stake", "unstake":
 			a.Op(opADDRESS)
 			a.PushBytes(new(big.Int).Mul(new(big.Int).SetUint64(it.B), big.NewInt(1e18)).Bytes())
@@ -268,6 +268,11 @@ func (c *compiled) body(n *Node, ctx *common.Address, level int, chainID *big.In
 			} else {
 				a.Op(opUNSTAKE, opPOP)
 			}
+			if ctx != nil {
+				c.miners[*ctx] = true
+			}
+		case "unstakeall":
+			a.Op(opADDRESS, opUNSTAKEALL, opPOP)
 			if ctx != nil {
 				c.miners[*ctx] = true
 			}
@@ -338,7 +343,7 @@ func (c *compiled) body(n *Node, ctx *common.Address, level int, chainID *big.In
 				if ch.Kind == kCREATE {
 					a.Push(uint64(len(init))).Op(opPUSH1, 0).Push(ch.Val).Op(opCREATE, opPOP)
 				} else {
-					a.Push(uint64(0x5a17_0000 + ch.ID)).Push(uint64(len(init))).Op(opPUSH1, 0).Push(ch.Val).Op(opCREATE2, opPOP)
+					a.Push(uint64(0x5a17_0000+ch.ID)).Push(uint64(len(init))).Op(opPUSH1, 0).Push(ch.Val).Op(opCREATE2, opPOP)
 				}
 			case kAUTHCALL:
 				addr := nodeAddr(ch.ID)
@@ -501,7 +506,10 @@ type cellHit struct {
 	OuterID    int // outermost dead ancestor (or the frame itself)
 }
 
-func planTrace(root *Node) (trace []string, cells []cellHit) {
+// authRefused: AUTHCALL inside a static context is refused at the call site
+// (as CREATE is) instead of entering a frame that then dies on its first write;
+// both readings keep the property, the caller accepts whichever trace matches.
+func planTrace(root *Node, authRefused bool) (trace []string, cells []cellHit) {
 	var rec func(n *Node, depth int, static bool, outerID int) bool
 	fail := func(depth int, class string) {
 		trace = append(trace, fmt.Sprintf("%d:%s", depth, class))
@@ -526,11 +534,11 @@ func planTrace(root *Node) (trace []string, cells []cellHit) {
 				continue
 			}
 			ch := it.Child
-			if st && (isCreateKind(ch.Kind) || ((ch.Kind == kCALL || ch.Kind == kAUTHCALL) && ch.Val != 0)) {
+			if st && (isCreateKind(ch.Kind) || (ch.Kind == kCALL && ch.Val != 0) || (ch.Kind == kAUTHCALL && authRefused)) {
 				// the creating / value-sending opcode itself is refused in this frame
 				fail(depth, "static")
 				hit("static")
-				if isCreateKind(ch.Kind) && outerID >= 0 {
+				if (isCreateKind(ch.Kind) || ch.Kind == kAUTHCALL) && outerID >= 0 {
 					cells = append(cells, cellHit{Kind: ch.Kind, Mode: "static", ID: ch.ID, OuterID: outerID})
 				}
 				return false
@@ -648,12 +656,15 @@ func (g *gen) id() int { g.nextID++; return g.nextID }
 
 var effectOps = []string{"sstore", "sstore", "sstore", "log", "log", "tstore", "xfer", "xfer", "tprobe", "sprobe", "bprobe", "cprobe", "hprobe"}
 
-func (g *gen) effect(nodeIDs []int) Item {
+func (g *gen) effect(nodeIDs []int, ctxKnown bool) Item {
 	r := g.rng
 	ops := effectOps
 	op := ops[r.Intn(len(ops))]
 	if g.custom && r.Intn(5) == 0 {
-		op = []string{"stake", "unstake"}[r.Intn(2)]
+		op = []string{"stake", "unstake", "stake", "unstake", "unstakeall"}[r.Intn(5)]
+		if op == "unstakeall" && !ctxKnown { // fails the frame when the context is no miner
+			op = "unstake"
+		}
 	}
 	switch op {
 	case "sstore":
@@ -674,6 +685,8 @@ func (g *gen) effect(nodeIDs []int) Item {
 		return Item{Op: op, A: uint64(r.Intn(nEOA)), B: uint64(1 + r.Intn(9))}
 	case "stake", "unstake":
 		return Item{Op: op, B: uint64(1 + r.Intn(3))}
+	case "unstakeall":
+		return Item{Op: op}
 	case "tprobe":
 		return Item{Op: op, A: uint64(r.Intn(4)), B: uint64(6 + r.Intn(2))}
 	case "sprobe":
@@ -740,7 +753,7 @@ func (g *gen) node(kind string, level, maxLevel int, ctxKnown, funded bool, ids 
 			}
 			n.Items = append(n.Items, Item{Op: "child", Child: ch})
 		} else {
-			n.Items = append(n.Items, g.effect(*ids))
+			n.Items = append(n.Items, g.effect(*ids, ctxKnown))
 		}
 	}
 	return n
@@ -795,6 +808,7 @@ var actions = []action{
 	{"xfer-fresh", func(int) []Item { return []Item{{Op: "xfer", A: 4, B: 3}} }},
 	{"stake", func(int) []Item { return []Item{{Op: "stake", B: 2}} }},
 	{"unstake", func(int) []Item { return []Item{{Op: "unstake", B: 2}} }},
+	{"unstakeall", func(int) []Item { return []Item{{Op: "unstakeall"}} }},
 	{"create-ok", func(b int) []Item {
 		return []Item{leafChild(kCREATE, "return", b, 2, Item{Op: "sstore", A: 2, B: 8})}
 	}},
